@@ -57,6 +57,10 @@ CLAIMED.update({
             "Trusted: Linux signal semantics as modelled (standard signals coalesce per queue; unblocking delivers pending instances before sigprocmask returns; signalfd reads dequeue regardless of the blocked set), /proc/self/status and fdinfo as observers, counting handlers standing for the normal disposition. Out of scope: other threads, a second Signals source, syscall failures, real-time signals."),
 })
 
+CLAIMED["C20"] = ("TLA+ specification of the key codec and TokenFactory (Token.tla) checked exhaustively by TLC at reduced bit widths with six wrong-behaviour variants; real pack/unpack/next_version/TokenFactory driven by drive_token, every logged record validated by TLC against the limb form of the same spec at IB=32, VB=SB=16 (TokenTrace.tla); supplementary Apalache (SMT) check of the same statements at the real widths",
+    "Exhaustive TLC model checking of the parametric pack/unpack/generation/sub-id arithmetic and the factory machine for all triples of widths <= 4/4/4 (and the limb layout), plus TLC trace validation of ~1.5 million (quick) / 6.5 million (thorough) evaluations of the real code: full boundary cross product, all 2^16 generations and all 2^16 sub-ids for several slot ids, a seeded sample, and factories asked for every n in 1..65540 (thorough).", "4/C20",
+    "The real 2^64 domain is not enumerated by TLC: it is bound by (1) limb-form agreement checked exhaustively at small limb widths, (2) validation of the real code on boundary values, full 16-bit sweeps and samples, (3) an Apalache/SMT supplement for all 2^64 keys (not the checker of record). Trusted: the driver's limb decomposition; polling's reserved key = usize::MAX. The 32/16-bit layouts of token.rs are not compiled here. A TLAPS proof was attempted and dropped (nonlinear div/mod obligation).")
+
 checks = []
 for pid, (tech, text, ref, note) in CLAIMED.items():
     checks.append({
